@@ -124,6 +124,16 @@ def _do(st, a):
         if a.get('at') is None or n[key] == a['at']:
             st.sim.trace.append((st.sim.now, st.idx, 'busy', a['d']))
             st.sim.now += a['d']
+    elif op == 'park':
+        # the callback takes d microseconds during which the REST of the system goes on (frames are received and handled by
+        # the reader thread while the job thread is inside the callback)
+        th = st.sim.current
+        if th is not None:
+            st.sim.trace.append((st.sim.now, st.idx, 'park', a['d']))
+            th.state = 'waiting'
+            th.gen += 1
+            st.sim.schedule(st.sim.now + a['d'], 'timeout', (th, th.gen))
+            th.park()
     elif op == 'unsubscribe':
         st.unsubscribe(st.cbs.get(a['cid']) or st.cb(a['cid'], 'sub'))
     elif op == 'subscribe':
